@@ -2,3 +2,5 @@ import Dm.Props.C09
 #print axioms Dm.Props.C09.source_is_documented
 #print axioms Dm.Props.C09.returned_field_is_eligible
 #print axioms Dm.Props.C09.two_explicit_sources_is_error
+#print axioms Dm.Props.C09.ignored_variant_is_none
+#print axioms Dm.Props.C09.enabled_variant_is_documented
